@@ -68,6 +68,14 @@ CLAIMED.update({
             "DESIGN.md §4 C05"),
 })
 
+CLAIMED.update({
+    "C08": ("who-may-call + must-pass-through (deferred recover barrier) + guard dominance over go/ssa",
+            "Parse stage only. Structural necessary conditions: every caller of the generated parser installs a recover barrier that turns any panic of lexer, grammar action or literal conversion into a located parse failure (found four crashing inputs, fixed by adding the barrier); "
+            "lexer progress (non-empty tokens, cursor advances every iteration); bounded include recursion.",
+            "Not decided: panics in the compile phase (counted as information), time/memory proportionality (RE2 linearity assumed), errors without position.",
+            "DESIGN.md §4 C08"),
+})
+
 NOT_APPLICABLE = {
     "C01": "Equality of delivered argument values with the denotation of binding expressions quantifies over run-time JSON values and fork matching for all programs; no clause is a fact about the shape of the code, so any static rule would be a proxy, not a necessary condition.",
     "C13": "Materialisation of files under outs/ and the rewritten _outs are file-system effects and hand-assembled JSON values; the only structural candidate (bracket pairing of the JSON writers) does not imply validity and is exercised by the existing golden tests.",
